@@ -15,6 +15,10 @@
    computed from the generated tables. *)
 From Coq Require Import String Ascii List Bool ZArith QArith PArith Lia.
 From PV Require Import Lib.Strings Lib.Decimal Model.ForceField Model.Topology Model.Titration.
+From PV Require Model.States Proofs.States Generated.States
+                Generated.FF_AMBER Generated.FF_CHARMM Generated.FF_PARSE Generated.FF_PEOEPB Generated.FF_SWANSON Generated.FF_TYL06
+                Generated.StatesFF_AMBER Generated.StatesFF_CHARMM Generated.StatesFF_PARSE Generated.StatesFF_PEOEPB
+                Generated.StatesFF_SWANSON Generated.StatesFF_TYL06.
 From PV Require Generated.Topology Generated.Titration
                 Generated.Titration_AMBER Generated.Titration_CHARMM Generated.Titration_PARSE
                 Generated.Titration_PEOEPB Generated.Titration_SWANSON Generated.Titration_TYL06.
@@ -297,28 +301,275 @@ Proof.
   apply formal_mono_cell. apply sides_at_mono. exact Hle.
 Qed.
 
-(* the charge that reaches the output: a residue whose state the force field
-   cannot parameterise contributes nothing *)
-Definition outZ (ff : ffid) (t : rtype) (pos : position) (s : sides) : Z :=
-  residue_outZ (lostf ff) formalf ff t pos s.
+(* ---- the EXACT output charge: decide -> state -> C02 state row -> FF_<ff>.built ------------ *)
 
-Theorem charge_monotone_output_partial : forall ff (rs : list tspec) (ph1 ph2 : Q),
-  In ff six_ffs ->
-  (forall r, In r rs -> In (ts_pos r) proper_positions) ->
-  (ph1 <= ph2)%Q ->
-  (total_charge outZ ff ph2 rs <= total_charge outZ ff ph1 rs)%Z.
+Definition builtf (ff : ffid) : ffmap :=
+  match ff with
+  | Amber => FF_AMBER.built | Charmm => FF_CHARMM.built | Parse => FF_PARSE.built
+  | Tyl06 => FF_TYL06.built | Peoepb => FF_PEOEPB.built | Swanson => FF_SWANSON.built
+  | OtherFF => []
+  end.
+
+(* (charge written for the residue, atoms written without parameters) of the
+   state the code produces for residue type [t] at [pos] with decided sites [s] *)
+Definition cell_out (ff : ffid) (t : rtype) (pos : position) (s : sides) : option (Z * list id) :=
+  state_out PV.Generated.States.arows Generated.Titration.never_final (builtf ff) t pos (residue_patches ff t pos s).
+
+Definition exactZ (ff : ffid) (t : rtype) (pos : position) (s : sides) : Z :=
+  match cell_out ff t pos s with Some (q, _) => q | None => 0%Z end.
+
+Definition no_sides : sides := mksides None None None.
+
+(* atoms the NEUTRAL-CTERM patch adds (PATCHES.xml, generated): the only atoms a
+   one-residue chain can lose in addition to those it loses untitrated *)
+Definition cterm_added : list id :=
+  flat_map (fun row => let '(n, _, adds, _) := row in if String.eqb n "NEUTRAL-CTERM" then adds else [])
+           Generated.Titration.patch_tbl.
+
+(* facts about one (force field, residue type, position) cell, over an arbitrary
+   output function [f] of the decided sites (instantiated with [cell_out ff t pos]) *)
+Definition sv_of (f : sides -> option (Z * list id)) : list (sides * option (Z * list id)) :=
+  map (fun s => (s, f s)) all_sides.
+
+Definition cell_ok (f : sides -> option (Z * list id)) (one_residue : bool) : bool :=
+  let sv := sv_of f in
+  forallb (fun p1 => match snd p1 with
+     | None => false
+     | Some (q1, m1) =>
+         forallb (fun p2 => match snd p2 with
+            | None => false
+            | Some (q2, _) => implb (sides_ge (fst p1) (fst p2)) (Z.leb q2 q1)
+            end) sv
+     end) sv &&
+  match f no_sides with
+  | None => false
+  | Some (_, md) =>
+      forallb (fun p => match snd p with
+         | None => false
+         | Some (_, mx) => forallb (fun a => mem_id a md || one_residue && mem_id a cterm_added) mx
+         end) sv
+  end.
+
+Definition is_nc (pos : position) : bool := match pos with PosNC => true | _ => false end.
+
+Lemma cell_ok_spec : forall f one, cell_ok f one = true ->
+  (forall s1 s2, exists q1 m1 q2 m2, f s1 = Some (q1, m1) /\ f s2 = Some (q2, m2) /\
+                                      (sides_ge s1 s2 = true -> (q2 <= q1)%Z)) /\
+  (forall s, exists q0 md q mx, f no_sides = Some (q0, md) /\ f s = Some (q, mx) /\
+             forall a, In a mx -> mem_id a md = true \/ (one = true /\ mem_id a cterm_added = true)).
 Proof.
-  intros ff rs ph1 ph2 Hff Hg Hle. apply total_mono. intros r Hr.
-  pose proof (Hg r Hr) as Hpos.
-  unfold outZ, residue_outZ.
-  rewrite !never_dropped_at_ph by assumption.
-  apply formal_mono_cell. apply sides_at_mono. exact Hle.
+  intros f one H. unfold cell_ok in H. cbv zeta in H.
+  apply andb_true_iff in H. destruct H as [Ha Hb].
+  assert (Hin : forall s, In (s, f s) (sv_of f)).
+  { intros s. unfold sv_of. apply (in_map (fun s => (s, f s))). apply in_all_sides. }
+  split.
+  - intros s1 s2.
+    pose proof (forallb_In _ _ _ _ Ha (Hin s1)) as H1. cbv beta in H1. cbn [snd fst] in H1.
+    destruct (f s1) as [[q1 m1]|]; [|discriminate H1].
+    pose proof (forallb_In _ _ _ _ H1 (Hin s2)) as H2. cbv beta in H2. cbn [snd fst] in H2.
+    destruct (f s2) as [[q2 m2]|]; [|discriminate H2].
+    exists q1, m1, q2, m2. split; [reflexivity|]. split; [reflexivity|].
+    intros Hge. rewrite Hge in H2. cbn [implb] in H2. apply Z.leb_le. exact H2.
+  - intros s. destruct (f no_sides) as [[q0 md]|]; [|discriminate Hb].
+    pose proof (forallb_In _ _ _ _ Hb (Hin s)) as H1. cbv beta in H1. cbn [snd] in H1.
+    destruct (f s) as [[q mx]|]; [|discriminate H1].
+    exists q0, md, q, mx. split; [reflexivity|]. split; [reflexivity|].
+    intros a Ha'. pose proof (forallb_In _ _ _ a H1 Ha') as H2. cbv beta in H2.
+    apply orb_true_iff in H2. destruct H2 as [H2|H2]; [left; exact H2|].
+    right. apply andb_true_iff in H2. exact H2.
+Qed.
+
+(* table over every force field x residue type x ALL FOUR positions: the output
+   is defined for all 27 site combinations, exact charges are ordered like the
+   protonation, and titration adds no unparameterised atom (a one-residue chain:
+   none but what NEUTRAL-CTERM adds) *)
+Lemma out_tbl_true :
+  forallb (fun ff => forallb (fun t => forallb (fun pos =>
+    cell_ok (cell_out ff t pos) (is_nc pos)) all_positions_) all_rtypes) six_ffs = true.
+Proof. vm_compute. reflexivity. Qed.
+
+Lemma out_cell_ok : forall ff t pos, In ff six_ffs -> cell_ok (cell_out ff t pos) (is_nc pos) = true.
+Proof.
+  intros ff t pos Hff.
+  pose proof (forallb_In _ _ _ ff out_tbl_true Hff) as H1. cbv beta in H1.
+  pose proof (forallb_In _ _ _ t H1 (in_all_rtypes t)) as H2. cbv beta in H2.
+  exact (forallb_In _ _ _ pos H2 (in_all_positions_ pos)).
+Qed.
+
+Lemma out_defined : forall ff t pos s, In ff six_ffs -> cell_out ff t pos s <> None.
+Proof.
+  intros ff t pos s Hff.
+  destruct (proj1 (cell_ok_spec _ _ (out_cell_ok ff t pos Hff)) s s) as [q1 [m1 [_ [_ [E _]]]]].
+  rewrite E. discriminate.
+Qed.
+
+Lemma exact_mono_cell : forall ff t pos s1 s2, In ff six_ffs -> sides_ge s1 s2 = true ->
+  (exactZ ff t pos s2 <= exactZ ff t pos s1)%Z.
+Proof.
+  intros ff t pos s1 s2 Hff Hge.
+  destruct (proj1 (cell_ok_spec _ _ (out_cell_ok ff t pos Hff)) s1 s2) as [q1 [m1 [q2 [m2 [E1 [E2 Hle]]]]]].
+  unfold exactZ. rewrite E1, E2. apply Hle. exact Hge.
+Qed.
+
+(* FULL output statement: ALL residue lists (all four positions, one-residue
+   chains included), ALL pKa assignments, pH1 <= pH2, six force fields: the sum of
+   the exact force-field charges written for the states the code produces never
+   increases *)
+Theorem charge_monotone_output : forall ff (rs : list tspec) (ph1 ph2 : Q),
+  In ff six_ffs -> (ph1 <= ph2)%Q ->
+  (total_charge exactZ ff ph2 rs <= total_charge exactZ ff ph1 rs)%Z.
+Proof.
+  intros ff rs ph1 ph2 Hff Hle. apply total_mono. intros r _.
+  apply exact_mono_cell; [exact Hff|]. apply sides_at_mono. exact Hle.
+Qed.
+
+Lemma mem_id_In : forall a l, mem_id a l = true -> In a l.
+Proof.
+  intros a l H. unfold mem_id in H. apply existsb_exists in H. destruct H as [x [Hx He]].
+  apply Pos.eqb_eq in He. subst x. exact Hx.
+Qed.
+
+(* titration never makes an atom unparameterised: every atom the decided state
+   is written without is one the untitrated residue is written without too, or -
+   in a one-residue chain, whose N* name cannot carry a neutral C-terminus - one
+   of the atoms NEUTRAL-CTERM adds *)
+Theorem decided_state_parameterised : forall ff t pos s, In ff six_ffs ->
+  exists q0 md q mx,
+    cell_out ff t pos no_sides = Some (q0, md) /\ cell_out ff t pos s = Some (q, mx) /\
+    forall a, In a mx -> In a md \/ (pos = PosNC /\ In a cterm_added).
+Proof.
+  intros ff t pos s Hff.
+  destruct (proj2 (cell_ok_spec _ _ (out_cell_ok ff t pos Hff)) s) as [q0 [md [q [mx [E0 [E Hin]]]]]].
+  exists q0, md, q, mx. split; [exact E0|]. split; [exact E|].
+  intros a Ha. destruct (Hin a Ha) as [H|[Hp Hc]].
+  - left. apply mem_id_In. exact H.
+  - right. split; [destruct pos; try discriminate Hp; reflexivity | apply mem_id_In; exact Hc].
+Qed.
+
+(* at the three ordinary positions: a fully parameterised untitrated residue
+   stays fully parameterised in every state titration can give it *)
+Corollary decided_state_fully_parameterised : forall ff t pos s q0, In ff six_ffs -> In pos proper_positions ->
+  cell_out ff t pos no_sides = Some (q0, []) ->
+  exists q, cell_out ff t pos s = Some (q, []).
+Proof.
+  intros ff t pos s q0 Hff Hpos H0.
+  destruct (decided_state_parameterised ff t pos s Hff) as [q0' [md [q [mx [E0 [E Hin]]]]]].
+  rewrite H0 in E0. inversion E0; subst. exists q. rewrite E. f_equal. f_equal.
+  destruct mx as [|a mx']; [reflexivity|]. exfalso.
+  destruct (Hin a (or_introl eq_refl)) as [[]|[Hp _]]. subst pos. cbn in Hpos. intuition discriminate.
+Qed.
+
+(* composition with C02: a state row alternative that is written completely
+   carries EXACTLY the formal charge of the state (C02 state_exact), except the
+   states C02 lists as findings (PARSE: NEUTRAL-CPRO) *)
+Lemma assigned_resolve : forall m res atoms q, assigned m res atoms = (q, []) ->
+  PV.Model.States.resolve m res atoms = Some q.
+Proof.
+  intros m res atoms. induction atoms as [|a rest IH]; intros q H.
+  - cbn in H. inversion H. reflexivity.
+  - cbn [assigned] in H. destruct (assigned m res rest) as [q' miss] eqn:E.
+    cbn [PV.Model.States.resolve].
+    destruct (lookup m res a) as [e|]; [|inversion H].
+    inversion H; subst. rewrite (IH q' eq_refl). reflexivity.
+Qed.
+
+Lemma real_alts_incl : forall nf r alt, In alt (real_alts nf r) -> In alt (PV.Model.States.ar_alts r).
+Proof.
+  intros nf r alt H. unfold real_alts in H.
+  destruct (filter _ (PV.Model.States.ar_alts r)) as [|x l] eqn:E; [exact H|].
+  rewrite <- E in H. apply filter_In in H. exact (proj1 H).
+Qed.
+
+Definition exc_keys (ff : ffid) : list nat :=
+  match ff with
+  | Amber => StatesFF_AMBER.known_exceptions | Charmm => StatesFF_CHARMM.known_exceptions
+  | Parse => StatesFF_PARSE.known_exceptions | Tyl06 => StatesFF_TYL06.known_exceptions
+  | Peoepb => StatesFF_PEOEPB.known_exceptions | Swanson => StatesFF_SWANSON.known_exceptions
+  | OtherFF => []
+  end.
+
+(* C02's exactness check (Generated/StatesFF_<ff>.state_exact, the same boolean
+   function over the same tables) for the six maps at once; evaluated here by
+   vm_compute so that no conversion has to unfold the force-field maps lazily *)
+Lemma state_exact_six :
+  forallb (fun ff => PV.Model.States.check_arows 0 (builtf ff) (exc_keys ff) PV.Generated.States.arows) six_ffs = true.
+Proof. vm_compute. reflexivity. Qed.
+
+Lemma state_exact_ff : forall ff, In ff six_ffs ->
+  PV.Model.States.check_arows 0 (builtf ff) (exc_keys ff) PV.Generated.States.arows = true.
+Proof. intros ff H. exact (forallb_In _ _ _ ff state_exact_six H). Qed.
+
+Lemma output_is_formal_gen : forall (rows : list PV.Model.States.arow) nf m exc,
+  PV.Model.States.check_arows 0 m exc rows = true ->
+  forall t pos ps r alt q,
+  In r (rows_for rows t pos ps) -> In alt (real_alts nf r) ->
+  ~ In (PV.Model.States.ar_key r) exc ->
+  assigned m (PV.Model.States.ar_ff r) alt = (q, []) ->
+  q = (PV.Model.States.ar_formal r * PV.Model.States.SCALE)%Z.
+Proof.
+  intros rows nf m exc Hchk t pos ps r alt q Hr Halt Hexc Hq.
+  unfold rows_for in Hr. apply filter_In in Hr. destruct Hr as [Hr _].
+  pose proof (PV.Proofs.States.state_charge_sound 0 m exc rows Hchk r Hr Hexc
+                alt q (real_alts_incl _ _ _ Halt) (assigned_resolve _ _ _ _ Hq)) as H.
+  lia.
+Qed.
+
+Theorem output_is_formal : forall ff t pos ps r alt q, In ff six_ffs ->
+  In r (rows_for PV.Generated.States.arows t pos ps) ->
+  In alt (real_alts Generated.Titration.never_final r) ->
+  ~ In (PV.Model.States.ar_key r) (exc_keys ff) ->
+  assigned (builtf ff) (PV.Model.States.ar_ff r) alt = (q, []) ->
+  q = (PV.Model.States.ar_formal r * PV.Model.States.SCALE)%Z.
+Proof.
+  intros ff t pos ps r alt q Hff.
+  exact (output_is_formal_gen PV.Generated.States.arows Generated.Titration.never_final (builtf ff) (exc_keys ff)
+           (state_exact_ff ff Hff) t pos ps r alt q).
+Qed.
+
+(* the C02 rows selected for a cell carry the very state name(s) this model's
+   naming (tied to aa.py by naming_matches_code) gives the cell *)
+Lemma rows_match_names_tbl :
+  forallb (fun ff => forallb (fun c => let '(t, (pos, s)) := c in
+     forallb (fun r => existsb (fun n => match name_id Generated.Titration.name_ids n with
+                                         | Some i => Pos.eqb i (PV.Model.States.ar_ff r)
+                                         | None => false
+                                         end) (residue_names ff t pos s))
+             (rows_for PV.Generated.States.arows t pos (residue_patches ff t pos s)))
+     res_cells) all_ffs = true.
+Proof. vm_compute. reflexivity. Qed.
+
+Theorem rows_match_names : forall ff t pos s r,
+  In r (rows_for PV.Generated.States.arows t pos (residue_patches ff t pos s)) ->
+  exists n, In n (residue_names ff t pos s) /\
+            name_id Generated.Titration.name_ids n = Some (PV.Model.States.ar_ff r).
+Proof.
+  intros ff t pos s r Hr.
+  pose proof (forallb_In _ _ _ ff rows_match_names_tbl (in_all_ffs ff)) as H1. cbv beta in H1.
+  pose proof (forallb_In _ _ _ _ H1 (in_res_cells t pos s)) as H2. cbv beta iota in H2.
+  pose proof (forallb_In _ _ _ r H2 Hr) as H3. cbv beta in H3.
+  apply existsb_exists in H3. destruct H3 as [n [Hn Hi]]. exists n. split; [exact Hn|].
+  destruct (name_id Generated.Titration.name_ids n) as [i|]; [|discriminate Hi].
+  apply Pos.eqb_eq in Hi. subst i. reflexivity.
+Qed.
+
+(* what the code does with a one-residue chain, as it is: the residue is named
+   N* only, so OXT (and HO under NEUTRAL-CTERM) are written without parameters
+   and the chain carries the charge of its N-terminal state alone *)
+Example one_residue_chain_as_is :
+  (exists oxt, cell_out Amber ALA PosNC no_sides = Some (100000000%Z, [oxt])) /\
+  (exists ho oxt, cell_out Parse ALA PosNC (mksides None (Some true) None) = Some (100000000%Z, [ho; oxt])) /\
+  cell_out Parse ALA PosNC (mksides (Some false) None None) <> cell_out Parse ALA PosNC no_sides /\
+  cell_out Amber CYS PosMid (mksides None None (Some false)) = Some ((-100000000)%Z, []) /\
+  cell_out Amber ALA PosC no_sides = Some ((-100000000)%Z, []).
+Proof.
+  split; [eexists; vm_compute; reflexivity|]. split; [do 2 eexists; vm_compute; reflexivity|].
+  split; [vm_compute; discriminate|]. split; vm_compute; reflexivity.
 Qed.
 
 (* regression (was the F10 refutation witness): C-terminal CYS in amber, pH 7 -> 10 *)
 Example charge_monotone_output_former_witness :
-  (total_charge outZ Amber (10 # 1)%Q [mktspec CYS PosC None None (Some (8 # 1)%Q)]
-   <= total_charge outZ Amber (7 # 1)%Q [mktspec CYS PosC None None (Some (8 # 1)%Q)])%Z /\
+  (total_charge exactZ Amber (10 # 1)%Q [mktspec CYS PosC None None (Some (8 # 1)%Q)]
+   <= total_charge exactZ Amber (7 # 1)%Q [mktspec CYS PosC None None (Some (8 # 1)%Q)])%Z /\
   decide Amber PosC GCYS false = Keep true.
 Proof. vm_compute. split; [discriminate | reflexivity]. Qed.
 
@@ -375,6 +626,60 @@ Proof.
          (mkres true "ASP" 10 "A" false false), (mkres true "ASP" 10 "A" false false).
   split; [reflexivity|]. vm_compute. discriminate.
 Qed.
+
+(* ---- the dict key main.py builds for a row IS the key apply_pka_values looks up ---------------- *)
+
+Lemma is_empty_app_r : forall a t : string, t <> EmptyString -> is_empty (a ++ t) = false.
+Proof. intros a t Ht. destruct a; cbn; [destruct t; [contradiction|reflexivity] | reflexivity]. Qed.
+
+Lemma rstrip_app_keep : forall a t : string, rstrip t = t -> t <> EmptyString -> rstrip (a ++ t) = (a ++ t)%string.
+Proof.
+  intros a t Ht Hne. induction a as [|c a IH]; [exact Ht|].
+  cbn [append rstrip]. rewrite IH. rewrite (is_empty_app_r a t Hne). rewrite andb_false_r. reflexivity.
+Qed.
+
+(* for ALL integers (negative, zero, any number of digits) and all residue names /
+   chain ids without outer whitespace: main.py's unstripped dict key equals the
+   stripped key apply_pka_values computes for that residue *)
+Theorem row_key_is_lookup_key : forall (name chain label : string) (num : Z) (pka : Q) (am nt ct : bool),
+  lstrip name = name -> name <> EmptyString -> rstrip chain = chain -> chain <> EmptyString ->
+  row_key (mkpkarow name num chain label pka) = key_side (mkres am name num chain nt ct).
+Proof.
+  intros name chain label num pka am nt ct Hn Hne Hc Hce.
+  unfold row_key, key_side, strip. cbn [row_resname row_resnum row_chain r_name r_seq r_chain].
+  assert (Hl : lstrip (name ++ " " ++ Z_to_string num ++ " " ++ chain) = (name ++ " " ++ Z_to_string num ++ " " ++ chain)%string).
+  { destruct name as [|c n]; [contradiction|]. cbn [append lstrip] in *.
+    destruct (is_ws c) eqn:E; [|reflexivity].
+    (* lstrip (String c n) = String c n with is_ws c = true is impossible: the result is shorter *)
+    exfalso. clear - Hn E.
+    assert (Hlen : forall s, (String.length (lstrip s) <= String.length s)%nat).
+    { induction s as [|x s IHs]; cbn; [lia|]. destruct (is_ws x); cbn; lia. }
+    pose proof (Hlen n) as H. rewrite Hn in H. cbn in H. lia. }
+  rewrite Hl.
+  replace (name ++ " " ++ Z_to_string num ++ " " ++ chain)%string
+     with ((name ++ " " ++ Z_to_string num ++ " ") ++ chain)%string
+     by (rewrite !app_assoc_s; reflexivity).
+  symmetry. apply rstrip_app_keep; assumption.
+Qed.
+
+(* hence a side-chain row of a residue is found at that residue's site, whatever its number *)
+Theorem row_reaches_site : forall (name chain label : string) (num : Z) (pka : Q) (am nt ct : bool),
+  lstrip name = name -> name <> EmptyString -> rstrip chain = chain -> chain <> EmptyString ->
+  prefix_of name label = true ->
+  sget (dict_of_rows [mkpkarow name num chain label pka]) (key_side (mkres am name num chain nt ct)) = Some pka.
+Proof.
+  intros name chain label num pka am nt ct Hn Hne Hc Hce Hp.
+  rewrite <- (row_key_is_lookup_key name chain label num pka am nt ct Hn Hne Hc Hce).
+  unfold dict_of_rows. cbn [fold_left row_resname row_label]. rewrite Hp. cbn [sset sget].
+  rewrite String.eqb_refl. reflexivity.
+Qed.
+
+Example row_reaches_site_nonvacuous :
+  sget (dict_of_rows [mkpkarow "ASP" 1005 "A" (propka_label "ASP" 1005 "A") (39 # 10)%Q])
+       (key_side (mkres true "ASP" 1005 "A" false false)) = Some (39 # 10)%Q /\
+  propka_label "ASP" 1005 "A" = "ASP1005 A" /\
+  key_side (mkres true "ASP" (-12) "A" false false) = "ASP -12 A".
+Proof. vm_compute. repeat split; reflexivity. Qed.
 
 (* ---- main.py: terminus rows never reach apply_pka_values --------------------------------------- *)
 
